@@ -4,6 +4,18 @@ TABLE = [
   'Seeded search over histories (edit/touch/run/clear/lost-file, cache on/off, clock deltas and skew, one injected crash/torn write/ENOSPC/EACCES per faulted process) of the real Runner pipeline in forked simulated processes; every run is compared byte for byte with the same run from an empty cache, and with caching disabled the I/O trace must show no cache access. Includes an enumeration pass (every cache write event x offsets {0,1,half,last,+zeros}) on fixed small graphs. Sampling, not proof: right level because the property quantifies over histories x crash points of real file-system code.',
   'Trusts: the forked child as a stand-in for a fresh tranp process (spot-checked by exec), tmpfs as the file system, the clock premise (distinct contents never share an mtime), sequential histories, library-seeded cold oracle validated against truly cold runs at start-up.',
   'deterministic simulation with fault injection: seeded history + crash-point search, cold-run oracle, I/O trace', 'DESIGN.md §4 C05'),
+ ('C06', 'persist-sim (runner mode)', 'exploration',
+  'Seeded search over histories (edit / run / run -f / delete-output / version upgrade / touch, EACCES x1 absorbed by the Writer retry or x2 aborting the run) and configurations (output_dirs rule forms, output_language, module order); at every run the same disk snapshot is also run forced in another simulated process, and file sets, write log (exactly the outputs whose stored header differs or that are missing), header read-back and output path injectivity are compared; after an aborted run one fault-free run must converge. Sampling over histories, which is what the property quantifies over.',
+  'Trusts: forced run from the same snapshot as the meaning of "what a forced run would write"; healthy cache; distinct non-nested output directories; the harness reads headers with its own regex/JSON parse.',
+  'deterministic simulation with fault injection: seeded history search, forced-run oracle from the same snapshot, I/O write log', 'DESIGN.md §4 C06'),
+ ('C14', 'persist-sim + db-sim', 'exploration',
+  'Restart round trip: in seeded edit/run histories every process that restored a symbols file is compared symbol by symbol (type description to full depth, debug name, decl, node, via, completed) with a cache-less fresh process; plus seeded sessions on one live table (export / db- or module-unload / import / duplicate import / import of an older export / short read of the stored file) compared with the table before export, with the order clause checked on every export. Sampling over histories and delivery orders; encoding shapes are those of the corpus.',
+  'Trusts: the harness describer (types by fullyname recursively, decl/node as (module, full_path)); corpus = generated pools + library stubs; symbols files stale through a transitive dependency (C05 finding) are removed before the restoring run.',
+  'deterministic simulation: store/restart/restore histories and seeded export-unload-import sessions against the pre-export table', 'DESIGN.md §4 C14'),
+ ('C15', 'persist-sim', 'exploration',
+  'Restart round trip of stored syntax trees inside seeded edit/run/lost-file histories: every tree a process loaded from the cache is compared field by field (names, token values, child order, empty placeholders, spans) and through derived views (full paths, node classes, tokens, error quotations) with a fresh parse in a cache-less process; plus a fault-enumeration pass truncating / zero-filling every stored tree at stride and structural-boundary offsets, which must fail to load. The enumeration pass is reported inside coverage; the claimed category stays exploration.',
+  'Trusts: corpus (generated pools, the 188 KB classes stub, typing, collections.abc, enum); harness view through the public Entry interface.',
+  'deterministic simulation with fault injection: store/restart/load histories + torn-write enumeration', 'DESIGN.md §4 C15'),
 ]
 
 # applicable properties whose check is not registered yet
